@@ -245,6 +245,30 @@ fn matcha_alternation(q: PTerm) -> PGoal {
     })
 }
 
+fn matcha_alternation_unbound(q: PTerm) -> PGoal {
+    // every alternative of an arm is a clause of its own: the first one that unifies commits
+    proto_vulcan!(matcha q {
+        1 | 2 => ,
+        3 => ,
+    })
+}
+
+fn matcha_alternation_unbound_body(q: PTerm) -> PGoal {
+    proto_vulcan!(|x| {
+        matcha x {
+            [_] | [_, _] => member(q, [10, 20]),
+            _ => q == 0,
+        }
+    })
+}
+
+fn matchu_alternation_unbound(q: PTerm) -> PGoal {
+    proto_vulcan!(matchu q {
+        4 | 5 => ,
+        6 => ,
+    })
+}
+
 fn matcha_several_terms(q: PTerm) -> PGoal {
     // the head of an arm is the unification of ALL matched terms with the pattern
     proto_vulcan!(|a, b| {
@@ -517,6 +541,17 @@ fn nested_conj_first(q: PTerm) -> PGoal {
     })
 }
 
+fn five_clauses(q: PTerm) -> PGoal {
+    proto_vulcan!(conde { q == 1, q == 2, q == 3, q == 4, q == 5 })
+}
+
+fn seven_clauses(q: PTerm) -> PGoal {
+    proto_vulcan!(|x| {
+        conde { x == 1, x == 2, x == 3, x == 4, x == 5, x == 6, x == 7 },
+        project |x| { combine(1, x, q) }
+    })
+}
+
 fn four_clauses(q: PTerm) -> PGoal {
     proto_vulcan!(conde { q == 1, [q == 2, false], q == 3, member(q, [4, 5]) })
 }
@@ -558,6 +593,11 @@ pub fn corpus() -> Vec<Entry> {
         e("dfs-nested-brackets", "C05", true, dfs_nested_brackets, &[3, 1, 2]),
         e("dfs-nested-brackets-deep", "C05", true, dfs_nested_brackets_deep, &[5, 6]),
         e("matcha-alternation-arm", "C08", false, matcha_alternation, &[1, 2]),
+        e("matcha-alternation-unbound-term", "C08", false, matcha_alternation_unbound, &[1]),
+        e("matcha-alternation-unbound-term-body", "C08", false, matcha_alternation_unbound_body, &[10, 20]),
+        e("matchu-alternation-unbound-term", "C08", false, matchu_alternation_unbound, &[4]),
+        e("conde-five-clauses", "C06", false, five_clauses, &[1, 2, 3, 4, 5]),
+        e("conde-seven-clauses-in-conjunction", "C06", false, seven_clauses, &[11, 12, 13, 14, 15, 16, 17]),
         e("condu-bracketed-head", "C08", false, condu_bracketed_head, &[2, 10]),
         e("conda-bracketed-head-fails", "C08", false, conda_bracketed_head_fails, &[2]),
         e("literal-tail-disequality", "C02", false, literal_tail_diseq, &[8]),
